@@ -822,6 +822,13 @@ func (w *l1World) doEvent(ev l1Event) (obs map[string]interface{}) {
 			}
 		}
 	}()
+	if _, stuck := obs["blocked"]; stuck {
+		// the handler still holds whatever it blocked on (possibly a lock the dumps below need): report and stop here
+		obs["replies"] = map[string]interface{}{}
+		obs["cmds"] = []l1Cmd{}
+		obs["done"] = []string{}
+		return obs
+	}
 	dn := []string{}
 drain2:
 	for {
